@@ -378,6 +378,12 @@ struct CliCase {
     resp_comp: Option<Enc>,
     /// zero-length payload in the response frame
     resp_empty: bool,
+    /// the response is headers-only: this grpc-status travels in the response headers, no body
+    headers_only: Option<u8>,
+    /// after the first call the client (or a clone of it) enables these encodings as well and
+    /// calls again: what it advertises must follow
+    then_accept: Vec<Enc>,
+    then_via_clone: bool,
 }
 
 #[derive(Clone)]
@@ -385,6 +391,7 @@ struct Canned {
     capture: Arc<Mutex<Capture>>,
     resp_headers: HeaderMap,
     resp_body: Vec<u8>,
+    headers_only: bool,
     ch: Chooser,
 }
 
@@ -408,7 +415,11 @@ impl Service<http::Request<tonic::body::Body>> for Canned {
             }
             let mut t = HeaderMap::new();
             t.insert("grpc-status", HeaderValue::from_static("0"));
-            let mut r = http::Response::new(ScriptBody::new(this.resp_body.clone(), Some(t), Chunking::Fixed(vec![]), &this.ch));
+            let mut r = if this.headers_only {
+                http::Response::new(ScriptBody::new(Vec::<u8>::new(), None, Chunking::Fixed(vec![]), &this.ch).with_exact_size())
+            } else {
+                http::Response::new(ScriptBody::new(this.resp_body.clone(), Some(t), Chunking::Fixed(vec![]), &this.ch))
+            };
             *r.headers_mut() = this.resp_headers.clone();
             Ok(r)
         })
@@ -430,7 +441,10 @@ fn cli_body(c: &CliCase, ch: &Chooser) -> Outcome {
             None => RESP_MSG.to_vec(),
         }
     };
-    let svc = Canned { capture: capture.clone(), resp_headers: h, resp_body: wire::encode_frame(c.resp_flag, &payload), ch: ch.clone() };
+    if let Some(code) = c.headers_only {
+        h.insert("grpc-status", HeaderValue::from_str(&code.to_string()).unwrap());
+    }
+    let svc = Canned { capture: capture.clone(), resp_headers: h, resp_body: wire::encode_frame(c.resp_flag, &payload), headers_only: c.headers_only.is_some(), ch: ch.clone() };
     let mut client = EchoClient::new(svc);
     if let Some(e) = c.send {
         client = client.send_compressed(tonic_enc(e));
@@ -519,6 +533,9 @@ fn cli_body(c: &CliCase, ch: &Chooser) -> Outcome {
                 o.violate("client-accepts-unenabled-response-encoding", format!("response grpc-encoding {:?} not enabled (accept {{{}}}) but the call ended {:?}", c.resp_encoding.as_ref().map(|v| String::from_utf8_lossy(v).to_string()), names(&c.accept), view.error.as_ref().map(fmt_status)));
             }
         }
+        Ok(_) if c.headers_only.is_some() => {
+            // nothing to decode: the status in the headers decides (C02/C04's business)
+        }
         Ok(neg) => {
             if c.resp_flag == 1 && neg.is_none() {
                 if code != Some(tonic::Code::Internal) {
@@ -529,6 +546,31 @@ fn cli_body(c: &CliCase, ch: &Chooser) -> Outcome {
                     o.violate("client-refuses-valid-response", format!("well-formed response but caller saw {}", fmt_view(&view)));
                 }
             }
+        }
+    }
+    // a second call after the configuration grew
+    if !c.then_accept.is_empty() {
+        let mut client2 = if c.then_via_clone { client.clone() } else { client };
+        for e in &c.then_accept {
+            client2 = client2.accept_compressed(tonic_enc(*e));
+        }
+        if spin_block_on(client_call(&mut client2, c.shape, req_msgs.clone(), &vec![], false, ch, |_| {}), 100_000).is_err() {
+            o.violate("stall", "second client call did not complete");
+            return o;
+        }
+        let cap = capture.lock().unwrap().clone();
+        let gae = cap.req_headers.get_all("grpc-accept-encoding").iter().map(|v| v.as_bytes().to_vec()).collect::<Vec<_>>();
+        let mut got: Vec<String> = gae.iter().flat_map(|v| tokens_liberal(v)).filter(|t| t != "identity").collect();
+        got.sort();
+        got.dedup();
+        let mut want: Vec<String> = c.accept.iter().chain(c.then_accept.iter()).map(|e| e.name().to_string()).collect();
+        want.sort();
+        want.dedup();
+        o.obs.push_str(&format!(" | second call advertises {:?}", got));
+        if cap.calls != 2 {
+            o.violate("client-second-call-missing", format!("{} requests were sent for two calls", cap.calls));
+        } else if got != want {
+            o.violate("client-advertises-wrong-set", format!("after enabling {{{}}} on top of {{{}}} (on {}), the next request carries grpc-accept-encoding {:?}", names(&c.then_accept), names(&c.accept), if c.then_via_clone { "a clone" } else { "the same client" }, gae.iter().map(|v| String::from_utf8_lossy(v).to_string()).collect::<Vec<_>>()));
         }
     }
     o
@@ -559,7 +601,22 @@ fn cli_cases(_tier: Tier) -> Vec<CliCase> {
             for (re, flag, comp, empty) in &resp {
                 n += 1;
                 let shape = Shape::ALL[n % 4];
-                out.push(CliCase { shape, send, accept: accept.clone(), resp_encoding: re.clone(), resp_flag: *flag, resp_comp: *comp, resp_empty: *empty });
+                out.push(CliCase { shape, send, accept: accept.clone(), resp_encoding: re.clone(), resp_flag: *flag, resp_comp: *comp, resp_empty: *empty, headers_only: None, then_accept: vec![], then_via_clone: false });
+                // the same announcement on a headers-only response (status in the headers, no body)
+                if re.is_some() && *flag == 0 {
+                    for code in [0u8, 5] {
+                        out.push(CliCase { shape, send, accept: accept.clone(), resp_encoding: re.clone(), resp_flag: 0, resp_comp: None, resp_empty: true, headers_only: Some(code), then_accept: vec![], then_via_clone: false });
+                    }
+                }
+            }
+        }
+    }
+    // reconfiguration between two calls
+    for accept in &subsets {
+        for extra in [vec![Enc::Gzip], vec![Enc::Zstd, Enc::Deflate]] {
+            for via_clone in [false, true] {
+                n += 1;
+                out.push(CliCase { shape: Shape::ALL[n % 4], send: None, accept: accept.clone(), resp_encoding: None, resp_flag: 0, resp_comp: None, resp_empty: false, headers_only: None, then_accept: extra.clone(), then_via_clone: via_clone });
             }
         }
     }
@@ -579,9 +636,9 @@ pub fn property(tier: Tier) -> Property {
     let cli = Section::new(
         "client",
         Config::default(),
-        "cases: generated client with send_compressed in {none, each} x every ordered accept subset (16) x scripted response (grpc-encoding absent/identity/gzip/deflate/zstd/GZIP/br/obs-text; flag 0/1; payload compressed or not) with a rotating call shape; oracle: request grpc-encoding == configured (absent if none) and frames flagged/compressed accordingly, grpc-accept-encoding token set == accept set (+identity) and absent when empty, a response encoding that is not enabled => UNIMPLEMENTED, flag 1 without encoding => INTERNAL, well-formed responses are delivered. Non-trivial = any encoding configured or announced.",
+        "cases: generated client with send_compressed in {none, each} x every ordered accept subset (16) x scripted response (grpc-encoding absent/identity/gzip/deflate/zstd/GZIP/br/obs-text; flag 0/1; payload compressed or not; also as a headers-only response carrying grpc-status 0 / 5 in its headers) with a rotating call shape, plus two-call sequences in which the client, or a clone of it, enables further encodings between the calls; oracle: request grpc-encoding == configured (absent if none) and frames flagged/compressed accordingly, grpc-accept-encoding token set == accept set (+identity) and absent when empty, a response encoding that is not enabled => UNIMPLEMENTED, flag 1 without encoding => INTERNAL, well-formed responses are delivered. Non-trivial = any encoding configured or announced.",
         cli_cases(tier),
-        |c: &CliCase| format!("{:?} send={:?} accept={{{}}} resp-encoding={:?} flag={} comp={:?}", c.shape, c.send.map(|e| e.name()), names(&c.accept), c.resp_encoding.as_ref().map(|v| String::from_utf8_lossy(v).to_string()), c.resp_flag, c.resp_comp.map(|e| e.name())),
+        |c: &CliCase| format!("{:?} send={:?} accept={{{}}} resp-encoding={:?} flag={} comp={:?} headers_only={:?} then_accept={{{}}} via_clone={}", c.shape, c.send.map(|e| e.name()), names(&c.accept), c.resp_encoding.as_ref().map(|v| String::from_utf8_lossy(v).to_string()), c.resp_flag, c.resp_comp.map(|e| e.name()), c.headers_only, names(&c.then_accept), c.then_via_clone),
         cli_body,
     )
     .mins(500, 20, 200);
